@@ -13,11 +13,14 @@ def SubNodeOK (concat : List P → P) : Node P → Prop
   | .gbk l m => ∀ ps, m (ps.map l) = m [l (concat ps)]
   | .combineValues lp lg m => ∀ ps, m (ps.map (lg.getD lp)) = m [(lg.getD lp) (concat ps)]
   | .combineGlobal l m f _ =>
-      -- accumulators are compared up to an equivalence `R` that `finish` cannot see through
-      ∃ R : P → P → Prop, (∀ a, R a a) ∧ (∀ a b c, R a b → R b c → R a c) ∧
+      -- accumulators are compared up to an equivalence `R` that `finish` cannot see through; the merge
+      -- laws are only required of accumulators satisfying an invariant `I` that every local result has
+      -- and every merge preserves (e.g. "is `R`-equivalent to the fold of some values")
+      ∃ (I : P → Prop) (R : P → P → Prop), (∀ a, R a a) ∧ (∀ a b c, R a b → R b c → R a c) ∧
         (∀ a b, R a b → f a = f b) ∧
-        (∀ ps, R (m (ps.map l)) (l (concat ps))) ∧ (∀ a, m [a] = a) ∧
-        (∀ gs : List (List P), (∀ g ∈ gs, g ≠ []) → R (m (gs.map m)) (m gs.flatten))
+        (∀ p, I (l p)) ∧ (∀ g : List P, (∀ a ∈ g, I a) → I (m g)) ∧
+        (∀ ps, R (m (ps.map l)) (l (concat ps))) ∧ (∀ a, I a → R a (m [a])) ∧
+        (∀ gs : List (List P), (∀ g ∈ gs, g ≠ [] ∧ ∀ a ∈ g, I a) → R (m (gs.map m)) (m gs.flatten))
 
 def SubChainOK (concat : List P → P) : List (Node P) → Prop
   | .source w _ split :: rest => (∀ n, concat (split n) = w) ∧ ∀ nd ∈ rest, SubNodeOK concat nd
@@ -72,12 +75,18 @@ theorem stepSub_sim (concat : List P → P) (hc1 : ∀ p, concat [p] = p)
     simp only [stepSubSeq, need, pure_bind, hc1]
     rw [hok curr]
   | combineGlobal l m f fo =>
-    obtain ⟨R, hrefl, htrans, hfin, h1, h2, h3⟩ := hok
-    obtain ⟨x, hx, hR⟩ := reduceGlobal_spec m fo R hrefl (fun h h' => htrans _ _ _ h h') h2 h3 (curr.map l)
+    obtain ⟨I, R, hrefl, htrans, hfin, hIl, hIm, h1, h2, h3⟩ := hok
+    have hIa : ∀ a ∈ curr.map l, I a := by
+      intro a ha
+      obtain ⟨p, _, rfl⟩ := List.mem_map.mp ha
+      exact hIl p
+    obtain ⟨x, hx, hR⟩ := reduceGlobal_spec m fo I R hrefl (fun h h' => htrans _ _ _ h h') hIm h2 h3
+      (curr.map l) hIa
     refine ⟨[f x], ?_, ?_⟩
     · simp only [stepSubPar, hx, pure_bind]
-    · simp only [stepSubSeq, need, pure_bind, hc1, h2]
-      rw [hfin x (l (concat curr)) (htrans _ _ _ hR (h1 curr))]
+    · simp only [stepSubSeq, need, pure_bind, hc1]
+      rw [hfin x (m [l (concat curr)])
+        (htrans _ _ _ hR (htrans _ _ _ (h1 curr) (h2 _ (hIl _))))]
 
 theorem foldSub_sim (concat : List P → P) (hc1 : ∀ p, concat [p] = p)
     (rest : List (Node P)) (hok : ∀ nd ∈ rest, SubNodeOK concat nd) (curr : List P) :
